@@ -28,18 +28,19 @@ Init == /\ refs \in [Names -> RefSeqs]
         /\ pos = <<1>> /\ count = 0 /\ limit \in Limits /\ pushes = 0 /\ phase = "scan" /\ why = ""
 CurName == IF m.cur.ent = NoEnt THEN 0 ELSE m.cur.ent
 Top == Len(pos)
-(* scanEntityRef: the counter, createReader (takes a reader number), pushReader *)
+(* scanEntityRef AS CODED: createReader (takes a reader number), pushReader, and only then the counter
+   (++count > limit => fatal error, counter reset) - so one reader more than the limit can be pushed *)
 Expand == /\ phase = "scan" /\ pos[Top] <= Len(refs[CurName])
           /\ LET e == refs[CurName][pos[Top]] IN
-             IF limit > 0 /\ count + 1 > limit
-             THEN /\ phase' = "fatal" /\ why' = "limit" /\ count' = 0 /\ UNCHANGED <<m, pos, pushes>>
-             ELSE /\ count' = IF limit > 0 THEN count + 1 ELSE count
-                  /\ IF PushAccepts(m, e)
-                     THEN /\ m' = [PushOp(m, m.nextNum, e) EXCEPT !.nextNum = @ + 1]
-                          /\ pos' = [pos EXCEPT ![Top] = @ + 1] \o <<1>>
-                          /\ pushes' = pushes + 1 /\ UNCHANGED <<phase, why>>
-                     ELSE /\ m' = [m EXCEPT !.nextNum = @ + 1]          \* the refused reader had its number
-                          /\ phase' = "fatal" /\ why' = "recursion" /\ UNCHANGED <<pos, pushes>>
+             IF PushAccepts(m, e)
+             THEN /\ m' = [PushOp(m, m.nextNum, e) EXCEPT !.nextNum = @ + 1]
+                  /\ pos' = [pos EXCEPT ![Top] = @ + 1] \o <<1>>
+                  /\ pushes' = pushes + 1
+                  /\ IF limit > 0 /\ count + 1 > limit
+                     THEN phase' = "fatal" /\ why' = "limit" /\ count' = 0
+                     ELSE count' = (IF limit > 0 THEN count + 1 ELSE count) /\ UNCHANGED <<phase, why>>
+             ELSE /\ m' = [m EXCEPT !.nextNum = @ + 1]          \* the refused reader had its number
+                  /\ phase' = "fatal" /\ why' = "recursion" /\ UNCHANGED <<pos, pushes, count>>
           /\ UNCHANGED <<refs, limit>>
 (* end of the current entity: popReader; end of the document entity: the parse is over *)
 Pop == /\ phase = "scan" /\ pos[Top] > Len(refs[CurName])
@@ -59,7 +60,7 @@ Spec == Init /\ [][Next]_vars /\ WF_vars(Next)
 (* ---------- properties ---------- *)
 BoundedDepth == Depth(m) <= 2 * Cardinality(Entities) + 1
 StackInv == StackInvR(m)
-CountBounded == limit > 0 => (count <= limit /\ pushes <= limit)
+CountBounded == limit > 0 => (count <= limit /\ pushes <= limit + 1)
 ResetEmpty == (m.cur = NoEntry) => (m.stack = <<>> /\ phase \in {"fatal", "done"})
 PosAligned == Len(pos) = Depth(m)
 (* reachability in the reference graph: a cycle that the document can reach *)
